@@ -6,10 +6,21 @@ Driver for C17.  Operations (one per line):
 * `st <ty> <a> <b>`        — ty ∈ i32 u32 i64 u64; every `strong_typedef` operator on operands a, b
                              (`ub` where the underlying operator is undefined: signed overflow)
 * `sts <ty> <a> <lo> <hi>` — digest of the `st` lines for b = lo .. hi
+* `stself <ty> <a>`        — every binary / assigning operator with the SAME object on both sides; `stselfs ty lo hi` digest
+* `stmem <ty> <a> <b>`     — members (non-const `get`, `no_init`, copy, move), `strong_typedef_map/_apply/_construct_cast`,
+                             `<<`, `>>`; `stmems ty a lo hi` digest over b
+                             (ty additionally i8 u8 i16 u16: integral promotion; binary / unary operators are ill-formed there)
 * `rel <type> <a> <b>`     — a, b values of the type as comma separated component lists (`-` = empty);
                              prints `== != < > <= >=` (`-` = not offered by the type), hash agreement, extras
 * `rels <type> <maxlen> <a>` — digest of `rel type a b` for every b of the type's domain
                              (valid encodings of length ≤ maxlen with components in {0,1,2})
+* `relr <type> <ra> <rb> <a> <b>`, `relsr <type> <maxlen> <ra> <rb> <a>` — the same with the two values built along
+                             route ra / rb of the harness (constructor, assignment over another value, element-wise
+                             writes, erase after insert, …; + 8: inside a buffer pre-filled with a byte pattern); the model is a
+                             value model, the routes do not matter
+* `self <type> <ra> <a>`, `selfs <type> <maxlen> <ra>` — the SAME object on both sides
+* `relb <type> <base> <pos> <kind>` — digest of `rel` for all pairs (u, v) of boundary values (kind 0: 16-bit, 1: 32-bit)
+                             put at position pos of base
 * `tri <type> <maxlen> <a>`  — counts, over all b, c of the domain, violations of: `==` symmetric/transitive,
                              `<` transitive, incomparability transitive, `<` compatible with `==`
 * `tri1 <type> <a> <b> <c>`  — the same flags for one triple
@@ -18,8 +29,10 @@ Driver for C17.  Operations (one per line):
 Value encodings: opt `-`|x; eith k,x (k=0 failure, 1 success); var i,x (i<3); tup/arr/earr/vec3 x,y,z;
 rec/vec2/dim2 x,y; sti/recu x; mat22 a,b,c,d (row-major); box2 px,py,sx,sy; sph2 ox,oy,r;
 bf3 b0,b1,b2,route (route 0 initializer list, 1 `~` of the complement, 2 `~~`); grid w,h,elements (w*h, row-major);
-tree pre-order of value,number-of-children; rv elements; ref i (i-th object of an array);
-sp i,o (pointer to the i-th object, owner o < 2).
+grid1 w,elements; grid3 w,h,d,elements; vec1 x; vec4 x,y,z,w; dim3 x,y,z; mat23 six cells row-major; box3 p,p,p,s,s,s;
+sph3 o,o,o,r; tree pre-order of value,number-of-children; rv elements; ref i (i-th object of an array);
+sp i,o (o < 2: pointer to the i-th object, owner o; o = 2: null stored pointer — i = 0 no owner (moved-from), i = 1, 2 owner i-1);
+unit `-`; itr i,j (range from the i-th to the j-th element of an array, i ≤ j ≤ 2).
 -/
 namespace Fcppt.C17.Drv
 open Fcppt.Proto
@@ -28,7 +41,11 @@ open Fcppt.Proto
 
 def tyOf : String → Option IntTy
   | "i32" => some .i32 | "u32" => some .u32 | "i64" => some .i64 | "u64" => some .u64
+  | "i8" => some .i8 | "u8" => some .u8 | "i16" => some .i16 | "u16" => some .u16
   | _ => none
+
+/-- narrower than `int`: only the assigning operators, `++`/`--`, comparisons, hash and type_iso are well-formed -/
+def narrow (t : IntTy) : Bool := t.bits < 32
 
 def showM (r : M Int) : String := match r with | .ok v => toString v | .error _ => "ub"
 def showST (r : M ST) : String := match r with | .ok v => toString v.get | .error _ => "ub"
@@ -41,24 +58,53 @@ def stLine (t : IntTy) (a b : Int) : String :=
   let e := ST.eq l r
   let hId : Int → Nat := fun x => x.toNat
   let heq := if e then b01 (ST.hash hId l == ST.hash hId r) else "-"
-  s!"add={showST (ST.add t l r)} sub={showST (ST.sub t l r)} mul={showST (ST.mul t l r)} neg={showST (ST.neg t l)}" ++
-  s!" and={(ST.band t l r).get} or={(ST.bor t l r).get} xor={(ST.bxor t l r).get} not={(ST.bnot t l).get}" ++
+  (if narrow t then "narrow" else
+    s!"add={showST (ST.add t l r)} sub={showST (ST.sub t l r)} mul={showST (ST.mul t l r)} neg={showST (ST.neg t l)}" ++
+    s!" and={(ST.band t l r).get} or={(ST.bor t l r).get} xor={(ST.bxor t l r).get} not={(ST.bnot t l).get}") ++
   s!" preinc={showPair (ST.preInc t l)} predec={showPair (ST.preDec t l)} postinc={showPair (ST.postInc t l)} postdec={showPair (ST.postDec t l)}" ++
   s!" addas={showPair (ST.addAssign t l r)} subas={showPair (ST.subAssign t l r)} mulas={showPair (ST.mulAssign t l r)}" ++
   s!" andas={showPair (pure (ST.andAssign t l r))} oras={showPair (pure (ST.orAssign t l r))} xoras={showPair (pure (ST.xorAssign t l r))}" ++
   s!" lt={b01 (ST.lt l r)} le={b01 (ST.le l r)} gt={b01 (ST.gt l r)} ge={b01 (ST.ge l r)} eq={b01 e} ne={b01 (ST.ne l r)}" ++
   s!" heq={heq} iso={ST.undecorate (ST.decorate a)}"
 
-def stsDigest (t : IntTy) (a lo hi : Int) : String :=
+/-- the same object on both sides: in the value model `x op x` is `op` applied to two equal values -/
+def stSelfLine (t : IntTy) (a : Int) : String :=
+  let x : ST := ⟨a⟩
+  let hId : Int → Nat := fun v => v.toNat
+  let e := ST.eq x x
+  (if narrow t then "narrow" else
+    s!"add={showST (ST.add t x x)} sub={showST (ST.sub t x x)} mul={showST (ST.mul t x x)}" ++
+    s!" and={(ST.band t x x).get} or={(ST.bor t x x).get} xor={(ST.bxor t x x).get}") ++
+  s!" addas={showPair (ST.addAssign t x x)} subas={showPair (ST.subAssign t x x)} mulas={showPair (ST.mulAssign t x x)}" ++
+  s!" andas={showPair (pure (ST.andAssign t x x))} oras={showPair (pure (ST.orAssign t x x))} xoras={showPair (pure (ST.xorAssign t x x))}" ++
+  s!" asg={showPair (pure (ST.assign x x))} mvasg={showPair (pure (ST.assign x x))}" ++
+  s!" lt={b01 (ST.lt x x)} le={b01 (ST.le x x)} gt={b01 (ST.gt x x)} ge={b01 (ST.ge x x)} eq={b01 e} ne={b01 (ST.ne x x)}" ++
+  s!" heq={if e then b01 (ST.hash hId x == ST.hash hId x) else "-"}"
+
+/-- members of the class and the helper functions `strong_typedef_map / _apply / _construct_cast`, `<<`, `>>` -/
+def stMemLine (t : IntTy) (a b : Int) : String :=
+  let x : ST := ⟨a⟩
+  let y : ST := ⟨b⟩
+  let m := ST.map (fun v => t.bxor v b) x
+  let ap := ST.apply2 (fun u v => t.band u (t.bnot v)) x y
+  s!"set={(ST.set x b).get} cget={x.get} noinit={(ST.set x a).get}/{(ST.assign x y).1.get}" ++
+  s!" copy={x.get}/{(ST.set x b).get} cpas={(ST.assign y x).1.get}/{(ST.set x b).get} mv={(ST.assign y x).1.get} size=1" ++
+  s!" map={m.get}/{m.get} apply={ap.get}/{ap.get} apply1={(ST.map t.bnot x).get}" ++
+  s!" applyself={(ST.apply2 (fun u v => t.band u (t.bnot v)) x x).get} ccast={(ST.constructCast t.conv b).get} out=1 in=1"
+
+def digestRange (lo hi : Int) (f : Int → String) : String :=
   let cnt := (hi - lo + 1).toNat
-  let h := (List.range cnt).foldl (fun h k => fnv h (stLine t a (lo + (k : Nat)))) fnvInit
+  let h := (List.range cnt).foldl (fun h k => fnv h (f (lo + (k : Nat)))) fnvInit
   "D " ++ hex64 h
+
+def stsDigest (t : IntTy) (a lo hi : Int) : String := digestRange lo hi (stLine t a)
 
 /-! ### comparison of the composite types -/
 
 inductive Ty where
   | opt | eith | var | tup | arr | recd | sti | vec2 | vec3 | dim2 | mat22 | box2 | sph2 | bf3 | earr
   | grid | tree | rv | ref | sp | recu
+  | vec1 | vec4 | dim3 | mat23 | box3 | sph3 | grid1 | grid3 | unit | itr | bf9 | nest
   deriving DecidableEq, Repr
 
 def tyName : String → Option Ty
@@ -67,6 +113,8 @@ def tyName : String → Option Ty
   | "mat22" => some .mat22 | "box2" => some .box2 | "sph2" => some .sph2 | "bf3" => some .bf3 | "earr" => some .earr
   | "grid" => some .grid | "tree" => some .tree | "rv" => some .rv | "ref" => some .ref | "sp" => some .sp
   | "recu" => some .recu
+  | "vec1" => some .vec1 | "vec4" => some .vec4 | "dim3" => some .dim3 | "mat23" => some .mat23 | "box3" => some .box3
+  | "sph3" => some .sph3 | "grid1" => some .grid1 | "grid3" => some .grid3 | "unit" => some .unit | "itr" => some .itr | "bf9" => some .bf9 | "nest" => some .nest
   | _ => none
 
 def ieq (a b : Int) : Bool := a == b
@@ -99,24 +147,57 @@ def toTree (l : List Int) : Option (Tree Int) :=
   | some (t, []) => some t
   | _ => none
 
-def toGrid (l : List Int) : Option (Grid Int 2) :=
-  match l with
-  | w :: h :: rest =>
-    if 0 ≤ w ∧ 0 ≤ h ∧ rest.length = w.toNat * h.toNat then
-      some ⟨⟨#[w.toNat, h.toNat], rfl⟩, rest⟩
+/-- `n` extents followed by the elements in iteration order (x runs fastest) -/
+def toGrid (n : Nat) (l : List Int) : Option (Grid Int n) :=
+  let ext := (l.take n).map Int.toNat
+  let rest := l.drop n
+  if h : ext.toArray.size = n then
+    if (l.take n).all (fun x => decide (0 ≤ x)) && rest.length == ext.foldl (· * ·) 1 then some ⟨⟨ext.toArray, h⟩, rest⟩
     else none
-  | _ => none
+  else none
 
-/-- the bitfield over a 3-enumerator enum in 8-bit words, built along `route` -/
-def toBf (l : List Int) : Option (C10.Words 8) :=
+def mvecObs (n : Nat) (a b : List Int) (withMix : Bool) : Option (Bool × Bool × Bool × Bool × Bool × Bool × Bool × String) :=
+  match toVec n a, toVec n b with
+  | some x, some y =>
+    let e := MVec.eq ieq x y
+    let b01' := fun (c : Bool) => if c then "1" else "0"
+    let mix := if withMix then
+        s!" mix={b01' e}{b01' (MVec.ne ieq x y)}{b01' (MVec.eq ieq y x)}{b01' (MVec.ne ieq y x)}" ++
+        (if e then b01' (rangeHash (fun p q => p * 31 + q + 7) (fun (v : Int) => (v + 1000).toNat) x.toList ==
+                         rangeHash (fun p q => p * 31 + q + 7) (fun (v : Int) => (v + 1000).toNat) y.toList) else "-") ++
+        s!" mixord={b01' (MVec.lt ilt x y)}{b01' (MVec.gt ilt x y)}{b01' (MVec.le ilt x y)}{b01' (MVec.ge ilt x y)}" ++
+        s!"{b01' (MVec.lt ilt y x)}{b01' (MVec.gt ilt y x)}{b01' (MVec.le ilt y x)}{b01' (MVec.ge ilt y x)} conv=1"
+      else ""
+    some (e, MVec.ne ieq x y, MVec.lt ilt x y, MVec.gt ilt x y, MVec.le ilt x y, MVec.ge ilt x y,
+          MVec.hash (fun p q => p * 31 + q + 7) (fun (v : Int) => (v + 1000).toNat) x ==
+          MVec.hash (fun p q => p * 31 + q + 7) (fun (v : Int) => (v + 1000).toNat) y, mix)
+  | _, _ => none
+
+/-- a box given as position and size (the `(pos, size)` constructor) -/
+def toBox (n : Nat) (l : List Int) : Option (Box Int n) :=
+  match toVec n (l.take n), toVec n (l.drop n) with
+  | some p, some s =>
+    -- pos + size must be an `int` (the class stores the maximum)
+    if (List.range n).all (fun i => IntTy.i32.inRange (l.getD i 0 + l.getD (n + i) 0)) && l.length = 2 * n then
+      some (Box.ofPosSize (· + ·) p s)
+    else none
+  | _, _ => none
+
+def isub (a b : Int) : Int := a - b
+
+/-- the bitfield over an `n`-enumerator enum in 8-bit words, built along `route`; the three encoded membership bits
+are those of the enumerators `idx` (bf3: 0,1,2; bf9: 0,7,8 — two words) -/
+def toBf (n : Nat) (idx : List Nat) (l : List Int) : Option (C10.Words 8) :=
   match l with
   | [b0, b1, b2, route] =>
     if [b0, b1, b2].all (fun b => b == 0 || b == 1) then
-      let mem := (if b0 == 1 then [0] else []) ++ (if b1 == 1 then [1] else []) ++ (if b2 == 1 then [2] else [])
-      let co := (if b0 == 0 then [0] else []) ++ (if b1 == 0 then [1] else []) ++ (if b2 == 0 then [2] else [])
-      if route == 0 then some (C10.ofList 3 8 mem)
-      else if route == 1 then some (C10.not 3 (C10.ofList 3 8 co))
-      else if route == 2 then some (C10.not 3 (C10.not 3 (C10.ofList 3 8 mem)))
+      let bits := [b0, b1, b2]
+      let isIn := fun (e : Nat) => (List.range 3).any fun i => idx.getD i 0 == e && bits.getD i 0 == 1
+      let mem := (List.range n).filter isIn
+      let co := (List.range n).filter (fun e => !isIn e)
+      if route == 0 then some (C10.ofList n 8 mem)
+      else if route == 1 then some (C10.not n (C10.ofList n 8 co))
+      else if route == 2 then some (C10.not n (C10.not n (C10.ofList n 8 mem)))
       else none
     else none
   | _ => none
@@ -160,14 +241,37 @@ def relObs (ty : Ty) (a b : List Int) : Except String Obs := do
     | some x, some y => pure { eq := Either.eq ieq ieq x y, ne := Either.ne ieq ieq x y }
     | _, _ => bad
   | .var =>
-    let dec : List Int → Option (Var Int) := fun l => match l with
+    -- variant<int, long, short>: the nested sum int ⊕ (long ⊕ short)
+    let dec : List Int → Option (Sum Int (Sum Int Int)) := fun l => match l with
+      | [0, x] => some (.inl x) | [1, x] => some (.inr (.inl x)) | [2, x] => some (.inr (.inr x)) | _ => none
+    -- the one-component-type model (index, value) must say the same
+    let decV : List Int → Option (Var Int) := fun l => match l with
       | [i, x] => if 0 ≤ i ∧ i < 3 then some ⟨i.toNat, x⟩ else none | _ => none
-    match dec a, dec b with
-    | some x, some y =>
-      pure { eq := Var.eq ieq x y, ne := Var.ne ieq x y, lt := some (Var.lt ilt x y),
-             extra := s!" cmp={b01 (Var.compare ieq x y)} cmplt={b01 (Var.compare ilt x y)}" }
+    match dec a, dec b, decV a, decV b with
+    | some x, some y, some vx, some vy =>
+      let e := SumV.eq ieq (SumV.eq ieq ieq) x y
+      let n := SumV.ne ieq (SumV.eq ieq ieq) x y
+      let l := SumV.lt ilt (SumV.lt ilt ilt) x y
+      let ce := SumV.compare ieq (SumV.compare ieq ieq) x y
+      let cl := SumV.compare ilt (SumV.compare ilt ilt) x y
+      if e == Var.eq ieq vx vy && n == Var.ne ieq vx vy && l == Var.lt ilt vx vy && ce == Var.compare ieq vx vy &&
+         cl == Var.compare ilt vx vy then
+        pure { eq := e, ne := n, lt := some l, extra := s!" cmp={b01 ce} cmplt={b01 cl}" }
+      else .error "model-mismatch"
+    | _, _, _, _ => bad
+  | .tup =>
+    -- tuple<int, long, short>: the nested pair int × (long × short)
+    match a, b with
+    | [x0, x1, x2], [y0, y1, y2] =>
+      let e := Pair.eq ieq (Pair.eq ieq ieq) (x0, x1, x2) (y0, y1, y2)
+      -- the index-wise model over one component type must say the same
+      match toVec 3 a, toVec 3 b with
+      | some va, some vb =>
+        if e == equalV ieq va vb then pure { eq := e, ne := Pair.ne ieq (Pair.eq ieq ieq) (x0, x1, x2) (y0, y1, y2) }
+        else .error "model-mismatch"
+      | _, _ => bad
     | _, _ => bad
-  | .tup | .arr | .earr =>
+  | .arr | .earr =>
     match toVec 3 a, toVec 3 b with
     | some x, some y =>
       let e := equalV ieq x y
@@ -180,7 +284,11 @@ def relObs (ty : Ty) (a b : List Int) : Except String Obs := do
       let r2 : Rec Int := [(0, y0), (1, y1)]
       let r2p : Rec Int := [(1, y1), (0, y0)]     -- the same record as a type with permuted elements
       match Rec.eq ieq r1 r2, Rec.ne ieq r1 r2, Rec.eq ieq r1 r2p, Rec.eq ieq r2p r1 with
-      | some e, some n, some xe, some ex => pure { eq := e, ne := n, extra := s!" xeq={b01 xe} exq={b01 ex}" }
+      | some e, some n, some xe, some ex =>
+        -- the two-element model with element types of their own must agree with the label lookup
+        if xe == Rec2.eqPermuted ieq ieq (x0, x1) (y1, y0) && ex == Rec2.eqPermuted ieq ieq (y1, y0) (x0, x1) then
+          pure { eq := e, ne := n, extra := s!" xeq={b01 xe} exq={b01 ex}" }
+        else .error "model-mismatch"
       | _, _, _, _ => .error "ill-formed"
     | _, _ => bad
   | .sti =>
@@ -194,52 +302,45 @@ def relObs (ty : Ty) (a b : List Int) : Except String Obs := do
     match a, b with
     | [x], [y] => pure { eq := Recursive.eq ieq x y, ne := Recursive.ne ieq x y }
     | _, _ => bad
-  | .vec2 | .dim2 =>
-    match toVec 2 a, toVec 2 b with
+  | .vec1 | .vec2 | .vec3 | .vec4 | .dim2 | .dim3 =>
+    let n := match ty with | .vec1 => 1 | .vec2 | .dim2 => 2 | .vec3 | .dim3 => 3 | _ => 4
+    -- vec2: the same comparisons against the right operand held in a matrix row view (storage does not matter)
+    match mvecObs n a b (ty == .vec2) with
+    | some (e, ne, lt, gt, le, ge, he, mix) =>
+      pure { eq := e, ne := ne, lt := some lt, gt := some gt, le := some le, ge := some ge, hash := true, hashEq := he, extra := mix }
+    | none => bad
+  | .mat22 | .mat23 =>
+    let n := if ty == .mat22 then 4 else 6
+    match mvecObs n a b false with
+    | some (e, ne, _, _, _, _, he, _) => pure { eq := e, ne := ne, hash := true, hashEq := he }
+    | none => bad
+  | .box2 | .box3 =>
+    let n := if ty == .box2 then 2 else 3
+    match toBox n a, toBox n b with
     | some x, some y =>
-      -- vec2: the same comparisons against the right operand held in a matrix row view (storage does not matter)
-      let e := MVec.eq ieq x y
-      let mix := if ty == .vec2 then
-          s!" mix={b01 e}{b01 (MVec.ne ieq x y)}{b01 (MVec.eq ieq y x)}{b01 (MVec.ne ieq y x)}" ++
-          (if e then b01 (MVec.hash hcD hD x == MVec.hash hcD hD y) else "-")
-        else ""
-      pure { eq := e, ne := MVec.ne ieq x y, lt := some (MVec.lt ilt x y), gt := some (MVec.gt ilt x y),
-             le := some (MVec.le ilt x y), ge := some (MVec.ge ilt x y), hash := true,
-             hashEq := MVec.hash hcD hD x == MVec.hash hcD hD y, extra := mix }
+      let comps := x.min.toList == y.min.toList && x.max.toList == y.max.toList &&
+        (x.size isub).toList == (y.size isub).toList
+      pure { eq := Box.eq isub ieq x y, ne := Box.ne isub ieq x y, lt := some (Box.lt isub ilt x y), extra := s!" comps={b01 comps}" }
     | _, _ => bad
-  | .vec3 =>
-    match toVec 3 a, toVec 3 b with
-    | some x, some y =>
-      pure { eq := MVec.eq ieq x y, ne := MVec.ne ieq x y, lt := some (MVec.lt ilt x y), gt := some (MVec.gt ilt x y),
-             le := some (MVec.le ilt x y), ge := some (MVec.ge ilt x y), hash := true,
-             hashEq := MVec.hash hcD hD x == MVec.hash hcD hD y }
-    | _, _ => bad
-  | .mat22 =>
-    match toVec 4 a, toVec 4 b with
-    | some x, some y =>
-      pure { eq := MVec.eq ieq x y, ne := MVec.ne ieq x y, hash := true, hashEq := MVec.hash hcD hD x == MVec.hash hcD hD y }
-    | _, _ => bad
-  | .box2 =>
-    match toVec 2 (a.take 2), toVec 2 (a.drop 2), toVec 2 (b.take 2), toVec 2 (b.drop 2) with
-    | some p, some s, some q, some u =>
-      let x : Box Int 2 := ⟨p, s⟩; let y : Box Int 2 := ⟨q, u⟩
-      pure { eq := Box.eq ieq x y, ne := Box.ne ieq x y, lt := some (Box.lt ilt x y) }
-    | _, _, _, _ => bad
-  | .sph2 =>
-    match a, b with
-    | [a0, a1, ar], [b0, b1, br] =>
-      let x : Sphere Int 2 := ⟨⟨#[a0, a1], rfl⟩, ar⟩; let y : Sphere Int 2 := ⟨⟨#[b0, b1], rfl⟩, br⟩
+  | .sph2 | .sph3 =>
+    let n := if ty == .sph2 then 2 else 3
+    match toVec n (a.take n), toVec n (b.take n), a.drop n, b.drop n with
+    | some ao, some bo, [ar], [br] =>
+      let x : Sphere Int n := ⟨ao, ar⟩; let y : Sphere Int n := ⟨bo, br⟩
       pure { eq := Sphere.eq ieq x y, ne := Sphere.ne ieq x y }
-    | _, _ => bad
-  | .bf3 =>
-    match toBf a, toBf b with
+    | _, _, _, _ => bad
+  | .bf3 | .bf9 =>
+    let n := if ty == .bf3 then 3 else 9
+    let idx := if ty == .bf3 then [0, 1, 2] else [0, 7, 8]
+    match toBf n idx a, toBf n idx b with
     | some x, some y =>
       let hw : BitVec 8 → Nat := BitVec.toNat
       pure { eq := C10.eq x y, ne := C10.ne x y, hash := true, hashEq := C10.hash hcD hw x == C10.hash hcD hw y,
-             extra := s!" m={(C10.members 3 x).foldl (fun m i => m + 2 ^ i) 0},{(C10.members 3 y).foldl (fun m i => m + 2 ^ i) 0}" }
+             extra := s!" m={(C10.members n x).foldl (fun m i => m + 2 ^ i) 0},{(C10.members n y).foldl (fun m i => m + 2 ^ i) 0}" }
     | _, _ => bad
-  | .grid =>
-    match toGrid a, toGrid b with
+  | .grid | .grid1 | .grid3 =>
+    let n := match ty with | .grid1 => 1 | .grid => 2 | _ => 3
+    match toGrid n a, toGrid n b with
     | some x, some y =>
       match Grid.eq ieq x y, Grid.ne ieq x y with
       | .ok e, .ok n =>
@@ -250,7 +351,12 @@ def relObs (ty : Ty) (a b : List Int) : Except String Obs := do
     | _, _ => bad
   | .tree =>
     match toTree a, toTree b with
-    | some x, some y => pure { eq := Tree.eq ieq x y, ne := Tree.ne ieq x y }
+    | some x, some y =>
+      -- the children of x compared in place with y
+      let kids := match x with | .node _ cs => cs
+      let sub := kids.foldl (fun acc c =>
+        acc ++ b01 (Tree.eq ieq c y) ++ b01 (Tree.eq ieq y c) ++ b01 (Tree.ne ieq c y) ++ b01 (Tree.eq ieq c x)) ""
+      pure { eq := Tree.eq ieq x y, ne := Tree.ne ieq x y, extra := " sub=" ++ sub }
     | _, _ => bad
   | .rv =>
     match RawVec.eq ieq a b, RawVec.ne ieq a b with
@@ -265,17 +371,46 @@ def relObs (ty : Ty) (a b : List Int) : Except String Obs := do
       if 0 ≤ i ∧ i < 3 ∧ 0 ≤ j ∧ j < 3 then
         let x : Ref := ⟨i.toNat⟩; let y : Ref := ⟨j.toNat⟩
         pure { eq := Ref.eq x y, ne := Ref.ne x y, lt := some (Ref.lt x y), hash := true,
-               hashEq := Ref.hash id x == Ref.hash id y }
+               hashEq := Ref.hash id x == Ref.hash id y,
+               extra := s!" const={b01 (Ref.eq x y)}{b01 (Ref.ne x y)}{b01 (Ref.lt x y)}1" }
       else bad
     | _, _ => bad
   | .sp =>
+    -- i,o with o < 2: stored pointer = address of object i (addresses 1, 2, 3), owner o;
+    -- o = 2: null stored pointer (address 0, below every object), owner 2 + i (i = 0: no owner at all)
+    let dec : List Int → Option SPtr := fun l => match l with
+      | [i, o] => if 0 ≤ i ∧ i < 3 ∧ 0 ≤ o ∧ o < 3 then
+          some (if o = 2 then ⟨0, 2 + i.toNat⟩ else ⟨i.toNat + 1, o.toNat⟩) else none
+      | _ => none
+    match dec a, dec b with
+    | some x, some y =>
+      pure { eq := SPtr.eq x y, ne := SPtr.ne x y, lt := some (SPtr.lt x y), hash := true,
+             hashEq := SPtr.hash id x == SPtr.hash id y }
+    | _, _ => bad
+  | .nest =>
+    -- optional< variant< optional<int>, vector<int,2> > >: the model functions composed
+    let dec : List Int → Option (Option (Sum (Option Int) (Vector Int 2))) := fun l => match l with
+      | [] => some none
+      | [0] => some (some (.inl none))
+      | [0, x] => some (some (.inl (some x)))
+      | [1, x, y] => some (some (.inr ⟨#[x, y], rfl⟩))
+      | _ => none
+    match dec a, dec b with
+    | some x, some y =>
+      let e := Opt.eq (SumV.eq (Opt.eq ieq) (MVec.eq ieq)) x y
+      pure { eq := e, ne := Opt.ne (SumV.eq (Opt.eq ieq) (MVec.eq ieq)) x y,
+             lt := some (Opt.lt (SumV.lt (Opt.lt ilt) (MVec.lt ilt)) x y) }
+    | _, _ => bad
+  | .unit =>
     match a, b with
-    | [i, o], [j, p] =>
-      if 0 ≤ i ∧ i < 3 ∧ 0 ≤ j ∧ j < 3 ∧ 0 ≤ o ∧ o < 2 ∧ 0 ≤ p ∧ p < 2 then
-        let x : SPtr := ⟨i.toNat, o.toNat⟩; let y : SPtr := ⟨j.toNat, p.toNat⟩
-        pure { eq := SPtr.eq x y, ne := SPtr.ne x y, lt := some (SPtr.lt x y), hash := true,
-               hashEq := SPtr.hash id x == SPtr.hash id y }
-      else bad
+    | [], [] => pure { eq := UnitT.eq () (), ne := UnitT.ne () () }
+    | _, _ => bad
+  | .itr =>
+    let dec : List Int → Option (Int × Int) := fun l => match l with
+      | [i, j] => if 0 ≤ i ∧ i ≤ j ∧ j ≤ 2 then some (i, j) else none
+      | _ => none
+    match dec a, dec b with
+    | some x, some y => pure { eq := IterRange.eq ieq x y, ne := IterRange.ne ieq x y }
     | _, _ => bad
 
 def relLine (ty : Ty) (a b : List Int) : String :=
@@ -301,6 +436,22 @@ def relsDigest (ty : Ty) (maxlen : Nat) (a : List Int) : String :=
   let d := domain ty maxlen
   let h := d.foldl (fun h b => fnv h (relLine ty a b)) fnvInit
   s!"D n={d.length} {hex64 h}"
+
+/-- the same object on both sides: in the value model, the value against itself -/
+def selfsDigest (ty : Ty) (maxlen : Nat) : String :=
+  let d := domain ty maxlen
+  let h := d.foldl (fun h a => fnv h (relLine ty a a)) fnvInit
+  s!"D n={d.length} {hex64 h}"
+
+def b16 : List Int := [-32768, -32767, -257, -256, -129, -128, -1, 0, 1, 127, 128, 255, 256, 32766, 32767]
+def b32 : List Int := [-2147483648, -2147483647, -16777217, -16777216, -65537, -65536, -32769, -32768, -1, 0, 1,
+                       32767, 32768, 65535, 65536, 16777216, 16777217, 2147483646, 2147483647]
+
+/-- all pairs (u, v) of boundary values at position `pos`, the other components as in `base` -/
+def relbDigest (ty : Ty) (base : List Int) (pos : Nat) (kind : Nat) : String :=
+  let vals := if kind = 0 then b16 else b32
+  let h := vals.foldl (fun h u => vals.foldl (fun h v => fnv h (relLine ty (base.set pos u) (base.set pos v))) h) fnvInit
+  "D " ++ hex64 h
 
 /-- (eq, lt) of a pair as the model sees them; `lt = none` when not offered -/
 def eqLt (ty : Ty) (a b : List Int) : Bool × Option Bool :=
@@ -352,10 +503,36 @@ def tri1Line (ty : Ty) (a b c : List Int) : String :=
 
 /-- `reference::get`, `recursive::get`, `*unique_ptr`, `*shared_ptr`, `undecorate (decorate x)` all show the
 wrapped object; the store maps the address of the one object to its value -/
+def showMI (r : M Int) : String := match r with | .ok v => toString v | .error f => f.name
+
 def wrapLine (x : Int) : String :=
   let mem : Nat → Int := fun _ => x
   let r : Ref := ⟨0⟩
-  s!"ref={Ref.get mem r} same=1 rec={x} uniq={x} shared={x} iso={ST.undecorate (ST.decorate x)}"
+  let other : Int := IntTy.i32.bxor x 1
+  -- recursive: copy, then write the other value through the copy
+  let rec0 := RecCell.make x
+  let copyThenSet : M (RecCell Int) := do let c ← rec0.copy; c.set other
+  let reccopy := s!"{showMI (copyThenSet >>= RecCell.get)}/{showMI rec0.get}"
+  -- copy assignment over another value, the source is changed afterwards
+  let src := RecCell.make x
+  let dst := RecCell.make other
+  let dst' := RecCell.assign dst src false
+  let src' := src.set other
+  let recasg := s!"{showMI (dst' >>= RecCell.get)}/{showMI (src' >>= RecCell.get)}"
+  let dstSelf : M (RecCell Int) := do let d ← dst'; RecCell.assign d d true
+  let recself := showMI (dstSelf >>= RecCell.get)
+  let recmv : M Int := do
+    let d ← dstSelf
+    let (mv, _) := d.move
+    let (mv2, _) := mv.move
+    mv2.get
+  let sp : SPtr := ⟨1, 0⟩
+  let up : UPtr := ⟨some 1⟩
+  -- moved twice, released, adopted again by the pointer constructor
+  let up2 : UPtr := ⟨(up.move.1.move.1.release).1⟩
+  s!"ref={Ref.get mem r} same=1 rec={showMI rec0.get} uniq={showMI (up.get mem)} shared={showMI (SPtr.get mem sp)} iso={ST.undecorate (ST.decorate x)}" ++
+  s!" reccopy={reccopy} recasg={recasg} recself={recself} recmv={showMI recmv} recrv={showMI (RecCell.make x).get}" ++
+  s!" uniq2={showMI (up2.get mem)}/{x}/{x} sh2={x}/{x}/{x}/{x}/{x}/{x}"
 
 def handle (toks : List String) : String :=
   match toks with
@@ -368,10 +545,51 @@ def handle (toks : List String) : String :=
     | some t, some a, some lo, some hi =>
       if t.inRange a && t.inRange lo && t.inRange hi && lo ≤ hi then stsDigest t a lo hi else "bad-op"
     | _, _, _, _ => "bad-op"
+  | ["stmem", ty, a, b] =>
+    match tyOf ty, a.toInt?, b.toInt? with
+    | some t, some a, some b => if t.inRange a && t.inRange b then stMemLine t a b else "bad-op"
+    | _, _, _ => "bad-op"
+  | ["stmems", ty, a, lo, hi] =>
+    match tyOf ty, a.toInt?, lo.toInt?, hi.toInt? with
+    | some t, some a, some lo, some hi =>
+      if t.inRange a && t.inRange lo && t.inRange hi && lo ≤ hi then digestRange lo hi (stMemLine t a) else "bad-op"
+    | _, _, _, _ => "bad-op"
+  | ["stself", ty, a] =>
+    match tyOf ty, a.toInt? with
+    | some t, some a => if t.inRange a then stSelfLine t a else "bad-op"
+    | _, _ => "bad-op"
+  | ["stselfs", ty, lo, hi] =>
+    match tyOf ty, lo.toInt?, hi.toInt? with
+    | some t, some lo, some hi =>
+      if t.inRange lo && t.inRange hi && lo ≤ hi then digestRange lo hi (stSelfLine t) else "bad-op"
+    | _, _, _ => "bad-op"
   | ["rel", ty, a, b] =>
     match tyName ty, parseIntList a, parseIntList b with
     | some ty, some a, some b => relLine ty a b
     | _, _, _ => "bad-op"
+  | ["relr", ty, ra, rb, a, b] =>
+    -- the routes say how the harness builds the two values; the value does not depend on them
+    match tyName ty, ra.toNat?, rb.toNat?, parseIntList a, parseIntList b with
+    | some ty, some ra, some rb, some a, some b => if ra ≤ 15 && rb ≤ 15 then relLine ty a b else "bad-op"
+    | _, _, _, _, _ => "bad-op"
+  | ["relsr", ty, ml, ra, rb, a] =>
+    match tyName ty, ml.toNat?, ra.toNat?, rb.toNat?, parseIntList a with
+    | some ty, some ml, some ra, some rb, some a =>
+      if valid ty a && ml ≤ 8 && ra ≤ 15 && rb ≤ 15 then relsDigest ty ml a else "bad-op"
+    | _, _, _, _, _ => "bad-op"
+  | ["self", ty, ra, a] =>
+    match tyName ty, ra.toNat?, parseIntList a with
+    | some ty, some ra, some a => if ra ≤ 15 then relLine ty a a else "bad-op"
+    | _, _, _ => "bad-op"
+  | ["selfs", ty, ml, ra] =>
+    match tyName ty, ml.toNat?, ra.toNat? with
+    | some ty, some ml, some ra => if ml ≤ 8 && ra ≤ 15 then selfsDigest ty ml else "bad-op"
+    | _, _, _ => "bad-op"
+  | ["relb", ty, base, pos, kind] =>
+    match tyName ty, parseIntList base, pos.toNat?, kind.toNat? with
+    | some ty, some base, some pos, some kind =>
+      if valid ty base && pos < base.length && kind ≤ 1 then relbDigest ty base pos kind else "bad-op"
+    | _, _, _, _ => "bad-op"
   | ["rels", ty, ml, a] =>
     match tyName ty, ml.toNat?, parseIntList a with
     | some ty, some ml, some a => if valid ty a && ml ≤ 8 then relsDigest ty ml a else "bad-op"
